@@ -730,7 +730,7 @@ func extractArgs(l []byte) []*arg {
 	if len(l) == 0 {
 		return r
 	}
-	args := bytes.Split(l, comma)
+	args := splitComma(l)
 	for _, a := range args {
 		var set [][]byte
 		a = bytealg.Trim(a, space)
@@ -747,6 +747,29 @@ func extractArgs(l []byte) []*arg {
 		})
 	}
 	return r
+}
+
+// Split arguments list by the commas that are outside of quoted literals.
+func splitComma(l []byte) [][]byte {
+	var (
+		args  [][]byte
+		quote byte
+		start int
+	)
+	for i, c := range l {
+		switch {
+		case quote != 0:
+			if c == quote {
+				quote = 0
+			}
+		case c == '"' || c == '\'' || c == '`':
+			quote = c
+		case c == ',':
+			args = append(args, l[start:i])
+			start = i + 1
+		}
+	}
+	return append(args, l[start:])
 }
 
 // Get list of certain keys that should be checked sequentially.
